@@ -39,14 +39,24 @@ def sh(cmd, timeout=3600, cwd=None, input=None, env=None):
         return 124, out + "\n[timeout after %ss]" % timeout
 
 
-def sh_out(cmd, timeout=3600, cwd=None, input=None, env=None):
-    """run a command, return (rc, stdout, stderr) with the two streams kept apart"""
+def sh_out(cmd, timeout=3600, cwd=None, input=None, env=None, cpu=None):
+    """run a command, return (rc, stdout, stderr) with the two streams kept apart.
+    cpu = limit in CPU seconds (RLIMIT_CPU): unlike the wall-clock timeout it does not depend on the machine's load;
+    a process killed by it is reported with rc 124 like a timeout"""
     e = dict(os.environ)
     if env:
         e.update(env)
+    pre = None
+    if cpu:
+        import resource
+
+        def pre():
+            resource.setrlimit(resource.RLIMIT_CPU, (int(cpu), int(cpu) + 2))
     try:
         p = subprocess.run(cmd, shell=isinstance(cmd, str), cwd=cwd, input=input, stdout=subprocess.PIPE,
-                           stderr=subprocess.PIPE, timeout=timeout, env=e, text=True, errors="replace")
+                           stderr=subprocess.PIPE, timeout=timeout, env=e, text=True, errors="replace", preexec_fn=pre)
+        if cpu and p.returncode in (-24, -9, 152, 137):
+            return 124, p.stdout, p.stderr + "\n[CPU limit of %ss exceeded]" % cpu
         return p.returncode, p.stdout, p.stderr
     except subprocess.TimeoutExpired as ex:
         def dec(x):
@@ -294,8 +304,8 @@ class Ctx:
             raise CheckError(errs[0])
         return res
 
-    def run_bin(self, binary, input_text, args=(), timeout=1800, env=None):
-        rc, out, err = sh_out([binary] + list(args), input=input_text, timeout=timeout, env=env)
+    def run_bin(self, binary, input_text, args=(), timeout=1800, env=None, cpu=None):
+        rc, out, err = sh_out([binary] + list(args), input=input_text, timeout=timeout, env=env, cpu=cpu)
         return rc, out, err
 
 
